@@ -18,6 +18,8 @@ type callSig struct {
 	Func    string   `json:"func"`
 	File    string   `json:"file"`
 	Callees []string `json:"callees"`
+	// NEvents: number of calls and field stores in the function body (closures excluded)
+	NEvents int `json:"nevents"`
 	// Returns: number of return statements of the function body (closures excluded)
 	Returns int `json:"returns"`
 	// Counts: number of call sites per callee (closures included)
@@ -26,12 +28,20 @@ type callSig struct {
 	Order []string `json:"order,omitempty"`
 }
 
-// uniqueCalls: callee name -> the single call instruction of fn's own body with that name.
-func uniqueCalls(c *Ctx, fn *ssa.Function) map[string]ssa.Instruction {
-	count := map[string]int{}
-	at := map[string]ssa.Instruction{}
+// events: the calls and field stores of fn's own body (closures and defers excluded), keyed name#k where k
+// numbers the occurrences of the same name in source order.
+func events(c *Ctx, fn *ssa.Function) map[string]ssa.Instruction {
+	type ev struct {
+		name string
+		in   ssa.Instruction
+	}
+	var evs []ev
 	for _, b := range fn.Blocks {
 		for _, in := range b.Instrs {
+			if n := storeName(in); n != "" {
+				evs = append(evs, ev{n, in})
+				continue
+			}
 			ci, ok := in.(ssa.CallInstruction)
 			if !ok {
 				continue
@@ -40,17 +50,66 @@ func uniqueCalls(c *Ctx, fn *ssa.Function) map[string]ssa.Instruction {
 				continue
 			}
 			if n := calleeName(c, ci.Common()); n != "" {
-				count[n]++
-				at[n] = in
+				evs = append(evs, ev{n, in})
 			}
 		}
 	}
-	for n, k := range count {
-		if k != 1 {
-			delete(at, n)
+	sort.SliceStable(evs, func(i, j int) bool { return evs[i].in.Pos() < evs[j].in.Pos() })
+	out := map[string]ssa.Instruction{}
+	k := map[string]int{}
+	for _, e := range evs {
+		k[e.name]++
+		out[fmt.Sprintf("%s#%d", e.name, k[e.name])] = e.in
+	}
+	return out
+}
+
+// orderEdges: the transitive reduction of the strict control-flow order between the events of fn.
+func orderEdges(c *Ctx, fn *ssa.Function) []string {
+	evs := events(c, fn)
+	if len(evs) > 150 {
+		return nil
+	}
+	var names []string
+	for n := range evs {
+		names = append(names, n)
+	}
+	sort.Strings(names)
+	idx := map[string]int{}
+	for i, n := range names {
+		idx[n] = i
+	}
+	n := len(names)
+	before := make([][]bool, n)
+	// block-level reachability cache
+	for i := range before {
+		before[i] = make([]bool, n)
+	}
+	for i, a := range names {
+		for j, b := range names {
+			if i != j && executesBefore(evs[a], evs[b]) {
+				before[i][j] = true
+			}
 		}
 	}
-	return at
+	var out []string
+	for i := 0; i < n; i++ {
+		for j := 0; j < n; j++ {
+			if !before[i][j] {
+				continue
+			}
+			direct := true
+			for k := 0; k < n && direct; k++ {
+				if before[i][k] && before[k][j] {
+					direct = false
+				}
+			}
+			if direct {
+				out = append(out, names[i]+" => "+names[j])
+			}
+		}
+	}
+	return out
 }
 
 // executesBefore: x can be followed by y, and y can never be followed by x (strict order along control flow).
@@ -133,6 +192,34 @@ func calleeName(c *Ctx, call *ssa.CallCommon) string {
 	return k
 }
 
+// storeName: a store into a field of an existing object (not a local being built) is an effect too.
+func storeName(in ssa.Instruction) string {
+	st, ok := in.(*ssa.Store)
+	if !ok {
+		return ""
+	}
+	fa, ok := st.Addr.(*ssa.FieldAddr)
+	if !ok {
+		return ""
+	}
+	base := fa.X
+	for {
+		if inner, ok := base.(*ssa.FieldAddr); ok {
+			base = inner.X
+			continue
+		}
+		break
+	}
+	if _, isLocal := base.(*ssa.Alloc); isLocal {
+		return ""
+	}
+	n := ir.NamedOf(ir.Deref(fa.X.Type()))
+	if n == nil {
+		return ""
+	}
+	return "store " + n.Obj().Name() + "." + fieldOfName(fa)
+}
+
 // directCallees: callees of fn and of the closures nested in it.
 func directCallees(c *Ctx, fn *ssa.Function, out map[string]bool, mods map[*ssa.Function]bool) {
 	directCalleeCounts(c, fn, out, nil, mods)
@@ -143,6 +230,15 @@ func directCalleeCounts(c *Ctx, fn *ssa.Function, out map[string]bool, counts ma
 	walk = func(f *ssa.Function) {
 		for _, b := range f.Blocks {
 			for _, in := range b.Instrs {
+				if n := storeName(in); n != "" {
+					if out != nil {
+						out[n] = true
+					}
+					if counts != nil {
+						counts[n]++
+					}
+					continue
+				}
 				ci, ok := in.(ssa.CallInstruction)
 				if !ok {
 					continue
@@ -192,21 +288,8 @@ func (c *Ctx) callSigs(pkgs []string) []callSig {
 					delete(counts, k) // only multiplicities worth recording
 				}
 			}
-			uc := uniqueCalls(c, fn)
-			var names []string
-			for n := range uc {
-				names = append(names, n)
-			}
-			sort.Strings(names)
-			var order []string
-			for _, a := range names {
-				for _, b := range names {
-					if a != b && executesBefore(uc[a], uc[b]) {
-						order = append(order, a+" => "+b)
-					}
-				}
-			}
-			out = append(out, callSig{Func: ir.FuncKey(fn), File: file, Callees: sortedKeys(set), Counts: counts, Order: order, Returns: countReturns(fn)})
+			order := orderEdges(c, fn)
+			out = append(out, callSig{Func: ir.FuncKey(fn), File: file, Callees: sortedKeys(set), Counts: counts, Order: order, NEvents: len(events(c, fn)), Returns: countReturns(fn)})
 		}
 	}
 	sort.Slice(out, func(i, j int) bool { return out[i].Func < out[j].Func })
@@ -218,7 +301,7 @@ var callPkgs = []string{"pkg/server", "internal/pkg/table", "pkg/apiutil", "pkg/
 // ruleCallRatchet: no call that the reviewed tree makes has silently disappeared from its function.
 func (c *Ctx) ruleCallRatchet(rule string, pkgs []string, fileFilter func(file string) bool, baselineFile string, min int) {
 	r := c.R
-	r.Rule(rule, "dropped-call ratchet: the committed baseline records, for every function of the anchored code, the non-trivial functions and methods it calls directly (closures included; logging, formatting and pure library helpers left out). A function that still exists but neither calls a recorded callee any more, nor reaches it through a module function it has newly started to call (depth ≤ 3, so extracting a helper is not an alarm), has dropped a step — a bookkeeping update, a reset, a notification, a lock — that the reviewed behaviour included. Callees that no longer exist anywhere are not decided", min)
+	r.Rule(rule, "dropped-call ratchet: the committed baseline records, for every function of the anchored code, the non-trivial functions and methods it calls directly and the fields of existing objects it stores to (closures included; logging, formatting and pure library helpers left out). A function that still exists but neither calls a recorded callee any more, nor reaches it through a module function it has newly started to call (depth ≤ 3, so extracting a helper is not an alarm), has dropped a step — a bookkeeping update, a reset, a notification, a lock — that the reviewed behaviour included. Callees that no longer exist anywhere are not decided", min)
 	var base []callSig
 	b, err := os.ReadFile(filepath.Join(homeDir(), baselineFile))
 	if err != nil || json.Unmarshal(b, &base) != nil {
@@ -328,7 +411,7 @@ func (c *Ctx) ruleCallRatchet(rule string, pkgs []string, fileFilter func(file s
 // ruleOrderRatchet: two steps of a function have not changed places.
 func (c *Ctx) ruleOrderRatchet(rule string, pkgs []string, fileFilter func(file string) bool, baselineFile string, min int) {
 	r := c.R
-	r.Rule(rule, "swapped-order ratchet: the committed baseline records, per function, the pairs (A, B) of non-trivial callees its body calls exactly once such that A executed before B on every path reaching B. If now B executes before A on every path reaching A (same block earlier, or B's block dominates A's), two steps have changed places — a check after the use, a bookkeeping update before the test it depends on, a strip before the policy that may set the attribute", min)
+	r.Rule(rule, "swapped-order ratchet: the committed baseline records, per function, the immediate-successor pairs (A, B) of the strict control-flow order between the calls and field stores of its body (A can be followed by B, B never by A; occurrences of the same callee are numbered in source order). If the function still performs exactly the same events and now B is strictly before A (same block earlier, or B's block dominates A's), two steps have changed places — a check after the use, a bookkeeping update before the test it depends on, a strip before the policy that may set the attribute", min)
 	var base []callSig
 	b, err := os.ReadFile(filepath.Join(homeDir(), baselineFile))
 	if err != nil || json.Unmarshal(b, &base) != nil {
@@ -346,12 +429,30 @@ func (c *Ctx) ruleOrderRatchet(rule string, pkgs []string, fileFilter func(file 
 			continue
 		}
 		fn := c.P.Func(bs.Func)
-		cons := fmt.Sprintf("%d ordered pairs of single calls", len(bs.Order))
+		cons := fmt.Sprintf("%d order edges", len(bs.Order))
 		if fn == nil || fn.Blocks == nil {
 			r.Add(oblT(rule, bs.Func, cons, bs.File, "ok", "the function no longer exists: not decided", nil, true))
 			continue
 		}
-		uc := uniqueCalls(c, fn)
+		uc := events(c, fn)
+		// the ratchet only speaks when the function still performs exactly the recorded events
+		recordedEv := map[string]bool{}
+		for _, pr := range bs.Order {
+			if i := strings.Index(pr, " => "); i > 0 {
+				recordedEv[pr[:i]] = true
+				recordedEv[pr[i+4:]] = true
+			}
+		}
+		sameEvents := true
+		for e := range recordedEv {
+			if _, ok := uc[e]; !ok {
+				sameEvents = false
+			}
+		}
+		if !sameEvents || len(uc) != bs.NEvents {
+			r.Add(oblT(rule, bs.Func, cons, bs.File, "ok", "the function's calls and stores changed in number: not decided", nil, true))
+			continue
+		}
 		swapped := ""
 		for _, pr := range bs.Order {
 			i := strings.Index(pr, " => ")
